@@ -148,6 +148,18 @@ func (ms *Modules) resolveIdentities() []error {
 
 	var errs []error
 
+	// The value lists are rebuilt below for the identities that are in the
+	// dictionary; an identity that is not (any more) - another revision or a
+	// submodule now provides its key - must not keep the list of an earlier
+	// run, nor may a list keep members that an earlier run put there.
+	for _, mm := range []map[string]*Module{ms.Modules, ms.SubModules} {
+		for _, m := range mm {
+			for _, i := range m.Identities() {
+				i.Values = nil
+			}
+		}
+	}
+
 	// Across all modules, read the identity values that have been extracted
 	// from them, and compile them into a "fully resolved" map that means that
 	// we can look them up based on the 'real' prefix of the module and the
